@@ -46,16 +46,3 @@ package core
 //@   flags trusted pure
 //@ func Msg.RspBodyString
 //@   flags trusted pure
-
-//@ func Pool.Get
-//@   flags trusted
-//@   modifies p.active.count, p.active.front, p.active.back, poolConn.next, poolConn.prev
-//@   ensures result != nil ==> ref(conn, result).opened && ref(conn, result).loop != nil && ref(conn, result).loop.poller != nil && ref(conn, result).outFragQueue != nil && fwf(ref(conn, result).outFragQueue)
-
-//@ func Pool.Close
-//@   flags trusted
-//@   modifies p.closed, p.active.count, p.active.front, p.active.back
-
-//@ func Pool.SetIsSlave
-//@   flags trusted
-//@   modifies p.isSlave, p.active.count, p.active.front, p.active.back
